@@ -633,6 +633,13 @@ var c08NearMisses = []string{
 	`put [&a=1] [&a=1 &b=$nil]`,
 	`put (num NaN) (num NaN)`,
 	`put [(num NaN)] [(num NaN)]`,
+	// NaNs with different sign and payload bits (parsed: 0x7ff8000000000001, arithmetic: 0xfff8.. or 0x7ff8..0)
+	`put (num NaN) (- (num Inf) (num Inf))`,
+	`put (num NaN) (* (num Inf) (num 0.0))`,
+	`put (- (num Inf) (num Inf)) (+ (num Inf) (num -Inf))`,
+	`put (- (num Inf) (num Inf)) (* (num -Inf) (num 0.0))`,
+	`put [(num NaN)] [(- (num Inf) (num Inf))]`,
+	`put [&k=(num NaN)] [&k=(* (num 0.0) (num Inf))]`,
 }
 
 var c08KeySpecs = [][2]string{{"Ctrl-a", "Ctrl-A"}, {"Ctrl-a", ""}, {"a", ""}, {"Enter", "Ctrl-J"}, {"Tab", "Ctrl-i"}, {"Alt-x", "Alt+x"}, {"Ctrl-Alt-Shift-F1", "Shift-Alt-Ctrl-F1"},
